@@ -18,7 +18,7 @@ for sid in sorted(os.listdir(f"{ROOT}/seeded")):
     d = f"{ROOT}/seeded/{sid}"
     if not os.path.isdir(d) or (only and sid not in only):
         continue
-    pid = sid.split("-")[0]
+    pid = sid[:3]
     rc, out = sh("git status --porcelain --untracked-files=no", "/repo")
     assert out.strip() == "", "/repo not clean"
     rc, out = sh(f"git apply {d}/patch.diff", "/repo")
@@ -42,7 +42,7 @@ lines = ["# Seeded changes x checks (exit 1 = VIOLATION reported, 0 = missed, 2 
 for sid in sorted(os.listdir(f"{ROOT}/seeded")):
     p = f"{ROOT}/seeded/{sid}/meta.json"
     if not os.path.exists(p): continue
-    m = json.load(open(p)); pid = sid.split("-")[0]
+    m = json.load(open(p)); pid = sid[:3]
     runs = m.get("checks_run", {})
     own = "; ".join(f"{t}: exit {v[pid]['exit']}" for t, v in runs.items() if pid in v)
     others = sorted({c for t in runs.values() for c, v in t.items() if c != pid and v["exit"] == 1})
